@@ -863,10 +863,14 @@ export class ConstRuntype extends BaseRuntype {
       case "string":
         return generateHashFromString(this.value);
       case "number":
-        return generateHashFromNumbers([this.value]);
+        // generateHashFromNumbers truncates to 32-bit integers: 1.5 would hash like 1
+        return Number.isInteger(this.value)
+          ? generateHashFromNumbers([this.value])
+          : generateHashFromString(`number:${this.value}`);
       case "boolean":
-        // not the hash of the string "true" / "false": the literal types true and "true" differ
-        return generateHashFromNumbers([booleanHash, this.value ? 1 : 0]);
+        // not the hash of the string "true" / "false" (the literal types true and "true" differ), and
+        // not an affine function of booleanHash either (it would cancel against boolean siblings)
+        return generateHashFromString(this.value ? "boolean:true" : "boolean:false");
     }
   }
   hash256(ctx: Hash256Context): void {
